@@ -11,12 +11,14 @@ import (
 	"bufio"
 	"bytes"
 	"context"
+	"errors"
 	"fmt"
 	"io"
 	"math/rand"
 	"strconv"
 	"strings"
 	"sync"
+	"sync/atomic"
 	"testing"
 	"testing/synctest"
 	"time"
@@ -84,6 +86,7 @@ func newUDP(bw bool) *udpWorld {
 		cfg.LimitClientParallelRequests = 16
 		cfg.LimitClientEndpointParallelRequests = 16
 		cfg.TransmissionAcknowledgeTimeout = 2 * time.Second
+		cfg.GetToken = tokenSource
 		cfg.Handler = func(rw *responsewriter.ResponseWriter[*udpclient.Conn], r *pool.Message) {
 			if w.handler != nil {
 				w.handler(rw, r)
@@ -221,8 +224,25 @@ type apiConn interface {
 	ReleaseMessage(m *pool.Message)
 }
 
+// failToken: while set, the token source the connections were configured with (cfg.GetToken) fails - another way for the
+// request builders to give up after they have acquired a message
+var failToken atomic.Bool
+
+func tokenSource() (message.Token, error) {
+	if failToken.Load() {
+		return nil, errors.New("token source exhausted")
+	}
+	return message.GetToken()
+}
+
 func refusedCalls(cc apiConn) {
-	bad := "/ok/" + strings.Repeat("s", 300)
+	refusedCallsWith(cc, "/ok/"+strings.Repeat("s", 300))
+	failToken.Store(true)
+	refusedCallsWith(cc, "/ok/fine")
+	failToken.Store(false)
+}
+
+func refusedCallsWith(cc apiConn, bad string) {
 	ctx, cancel := context.WithTimeout(context.Background(), time.Second)
 	defer cancel()
 	give := func(m *pool.Message, err error) {
@@ -593,6 +613,7 @@ func scnMixUDP(t *testing.T, seed int64, n int) {
 func scnTCP(t *testing.T, name string, arg string) {
 	var handler func(w *responsewriter.ResponseWriter[*tcpclient.Conn], r *pool.Message)
 	cc, peer, err := mem.NewTCPConn(mem.TCPOpts{Mutate: func(cfg *tcpclient.Config) {
+		cfg.GetToken = tokenSource
 		cfg.LimitClientParallelRequests = 16
 		cfg.LimitClientEndpointParallelRequests = 16
 		cfg.BlockwiseEnable = false
